@@ -560,7 +560,11 @@ Choose(int cur)
         }
       }
       if (!blocked) return -1;  // everything finished
-      if (G.scn->on_quiescent && G.scn->on_quiescent()) {
+      // Every unfinished thread has been classified as waiting. The classification is a heuristic (identical
+      // observations), so the threads are first released with fresh counters `stall_rounds` times; only threads that
+      // come back without anybody having written anything are really waiting. Then the scenario's quiescence hook
+      // may let the execution go on (it sees only *real* waits), otherwise this is a deadlock.
+      if (G.stall >= G.cfg.stall_rounds && G.scn->on_quiescent && G.scn->on_quiescent()) {
         G.stall = 0;
         for (int i = 0; i < G.n; ++i)
           if (G.th[i].st == S_BLOCKED) {
